@@ -13,7 +13,9 @@ CFG = {
             "Initials (the suite's samples; built per RFC 9001 with v1/v2, any DCID/SCID/token length, pn length 1..4, CRYPTO frames "
             "in order / shuffled / with gaps / non-zero start / empty duplicates / other frame types, with and without SNI), their "
             "truncation at every offset, a bit flip at every offset, short-header and other long-header types, version and length-field "
-            "games, random and empty datagrams. distinct = distinct op line; non-trivial = the 3-byte probe completed (TCP) or the header "
+            "games, random and empty datagrams; op `two`: 2-4 streams (every HTTP/TLS/unrecognised combination) through ONE Sniffer in "
+            "sequence, every returned replay slice kept uncopied and all oracles evaluated after the last stream (shared/pooled buffer "
+            "aliasing). distinct = distinct op line; non-trivial = the 3-byte probe completed (TCP) or the header "
             "parser accepted the datagram so that UnProtect is reached (UDP)",
     "trusted_base": [
         "net/http.ReadRequest behind bufio+io.LimitReader is an arbitrary sequence of Read calls whose first asks for >= 3 bytes "
@@ -27,6 +29,8 @@ CFG = {
         "the models Hy.Model.Sniff / Hy.Model.QuicInitial are tied to extras/sniff/sniff.go and extras/sniff/internal/quic/*.go by the "
         "differential stream `sniff` (replay bytes, rewritten address, unread remainder, abort; packet after the hook, address, error, "
         "extracted CRYPTO payload, panic) with the parsers'/crypto's recorded behaviour passed to the model, and by regenerated constants",
+        "the returned replay slice is owned by the call: a Go-level aliasing hazard outside the value model, tied only by the harness op "
+        "`two` and the regenerated go/ast facts of const_no_shared_buffer (no package-level variable, no sync import, no buffer field on Sniffer)",
         "the server writes the replay bytes to the target before relaying and forwards the very slice it handed to the UDP hook "
         "(core/server/server.go:281-325, udp.go:96-121,316-328) - read, not modelled",
     ],
@@ -41,7 +45,7 @@ CFG = {
 }
 
 MANIFEST = {
-    "text": "Proof: 19 Lean theorems over executable models of Sniffer.TCP (3-byte probe, tee reader under an ARBITRARY HTTP parser, "
+    "text": "Proof: 21 Lean theorems over executable models of Sniffer.TCP (3-byte probe, tee reader under an ARBITRARY HTTP parser, "
             "TLS record arithmetic, early returns, SplitHostPort/JoinHostPort rewriting) and of the QUIC sniffer chain "
             "(parseLongHeader, ReadCryptoPayload, UnProtect with the packet buffer threaded through as a value, extractCryptoFrames, "
             "assembleCryptoFrames, Sniffer.UDP) in a result type where every Go index/slice can panic explicitly: replay ++ unread = sent "
